@@ -152,8 +152,10 @@ def run(rep, tier, seed, replay=None):
         'C04_block_engine_instance for engines of block containers and leaves: Model/BlockAlg.v (compute_inner as a resumption incl. the '
         'content-based width queries; in-flow step = the function C10 K2 runs) + Model/BlockEngine.v (block_pre = compute_block_layout\'s '
         'known-dimension preprocessing, for InherentSize the block_styled_known of C10 K1; the adapter to Model/Leaf.v; dispatch on '
-        'has_children) are hand models; the absolute pass is the parameter abs_child (premise AbsChildRel, discharged for a simple routine, '
-        'not for the translated one)',
+        'has_children) are hand models; the absolute pass is the parameter abs_child: premise AbsChildRel, discharged for the REAL routine '
+        'abs_child_block (Model/BlockAbs.v: the translated kernel Gen/AbsPosGen.v + 20 lines of hand glue for the query inputs and the stored '
+        'layout) and for the old simple one; compute_root_layout glue Model/BlockRoot.v (C04_block_layout_pass); the whole instance is tied '
+        'to TaffyTree::compute_layout_with_measure bit for bit by the whole-tree correspondence `vh blocktree cases` (exact-key hook)',
         'still covered by the implementation-side oracle only: flex base sizes, line breaking, cross axis, baselines; grid placement and '
         'step 11.5 (a premise of C04_grid_track_sizing_partial) -- for flex / grid containers `Homogeneous` is a premise of C04_engine '
         '(false for flex in the known-finding class); the real lossy cache key (is_roughly_equal: refuted) and pixel rounding (refuted)',
@@ -203,6 +205,9 @@ def run(rep, tier, seed, replay=None):
         for tag, cs in (('flex', fc), ('block', bc), ('grid', gc)):
             if cs:
                 samples.append({'kernel_tie_%s_case' % tag: cs[-1]})
+        # ---- whole-tree tie of the block engine instance the C04_block_engine_real_* / C04_block_layout_pass theorems are about
+        from . import _blocktree
+        _blocktree.tree_k(rep, 'C04', binp, kseed, 3000 if big else 300)
 
     # ---- S: the property on the implementation
     n = 2000000 if big else 150000
